@@ -292,6 +292,8 @@ def oracle(ctx, plan, dongle, peer, st, errors, accepted, received, downs, order
     for i, r in enumerate(results):
         if i < first_data and r in nego:
             continue
+        if r[1] is None:
+            continue                 # USB read error: the driver saw no result for this transfer
         if r[1]:
             run = 0
         else:
